@@ -129,10 +129,14 @@ func loadReplay(path string) ([]*program, error) {
 		// strip the function header and the closing brace: program.Src is the body
 		i := strings.Index(src, "{\n")
 		j := strings.LastIndex(src, "\n}")
-		if !strings.HasPrefix(src, "func ") || i < 0 || j < i+2 {
+		if src == "" {
 			continue
 		}
-		p.Src = src[i+2 : j]
+		if !strings.HasPrefix(src, "func ") || i < 0 || j < i+2 {
+			p.Src = src // the body alone
+		} else {
+			p.Src = src[i+2 : j]
+		}
 		out = append(out, p)
 	}
 	if len(out) == 0 {
@@ -314,6 +318,15 @@ var defects = []*defect{
 	{key: "select-send-untyped-constant",
 		what: "select send case with an untyped constant is rejected (select.go lacks the ConstTo(elem) of Comp.Send)",
 		src:  "func q3() (v0, v1, v2, v3 int) {\n\tch := make(chan int, 1)\n\tselect {\n\tcase ch <- 1:\n\t\temit(700)\n\tdefault:\n\t\temit(800)\n\t}\n\treturn\n}", call: "q3", wantTrace: "[700]"},
+	{key: "range-string-assign-outer-var",
+		what: "range over a string assigning the rune with '=' to a variable of an outer frame writes env.Ints of the wrong frame (index out of range / clobbers another variable); the key is left at len(s), not at the last index",
+		src:  "func q4() (v0, v1, v2, v3 int) {\n\tk, r := 7, 'x'\n\tf := func() {\n\t\tfor k, r = range \"ab\" {\n\t\t\temit(k*1000 + int(r))\n\t\t}\n\t}\n\tf()\n\temit(k)\n\temit(int(r))\n\treturn\n}", call: "q4", wantTrace: "[97 1098 1 98]"},
+	{key: "select-recv-ok-on-closed-channel",
+		what: "select { case v, ok := <-ch } on a closed channel yields ok == true (select.go drops the recvOK result of reflect.Select and tests recv.IsValid())",
+		src:  "func q5() (v0, v1, v2, v3 int) {\n\tch := make(chan int, 1)\n\tclose(ch)\n\tselect {\n\tcase v, ok := <-ch:\n\t\temit(900 + v)\n\t\tif ok {\n\t\t\temit(1)\n\t\t} else {\n\t\t\temit(0)\n\t\t}\n\t}\n\treturn\n}", call: "q5", wantTrace: "[900 0]"},
+	{key: "go-statement-args-not-copied",
+		what: "go f(a) with an array/struct variable as argument: the goroutine sees a later assignment to the variable (Comp.Go passes the addressable reflect.Value, copied only by reflect.Call inside the new goroutine)",
+		src:  "func q6() (v0, v1, v2, v3 int) {\n\tdone, gate := make(chan int), make(chan int)\n\ta := [2]int{1, 2}\n\tgo func(t [2]int) { <-gate; done <- t[0] }(a)\n\ta[0] = 9\n\tgate <- 0\n\temit(<-done)\n\treturn\n}", call: "q6", wantTrace: "[1]"},
 }
 
 func probeDefects(rep *vh.Report) {
@@ -340,7 +353,8 @@ func main() {
 		"nesting depth <=5 quick, <=8 thorough; 45% of the programs additionally use differential-only constructs (range over slice/array/string/map(order-insensitive)/channel, type switch, select, "+
 		"closures capturing for/range header variables, if/switch with init); every loop is driven by a dedicated bounded counter. Oracle: the same source compiled by go1.23 in a `go 1.18` module. "+
 		"A program is non-trivial when its trace has >=2 events and it executes >=1 jump-type construct (loop, switch, break/continue/goto); distinct by SHA-256 of the source. "+
-		"While a recorded defect (goto to a function-top-level label; range key used as loop counter; select send of an untyped constant) is present on the tree its exact input is replayed first and the generators avoid that input class.")
+		"Also generated (differential only): range with '=' into outer variables (slice/array/string, also through a closure), select (value, ok) receives from closed channels, go statements with array/struct arguments modified after the go statement. "+
+		"While a recorded defect (goto to a function-top-level label; range key used as loop counter; select send of an untyped constant; range-string '=' into an outer variable; select ok on a closed channel; go arguments not copied) is present on the tree its exact input is replayed first and the generators avoid that input class.")
 	wd := vh.NewWatchdog(rep, 60*time.Second)
 
 	maxDepth, nprog := 5, 360
@@ -353,7 +367,8 @@ func main() {
 
 	// ---- corpus: the recorded inputs of the findings; generators avoid a class while its defect is present
 	probeDefects(rep)
-	avoid := avoidSet{topGoto: defects[0].present, rangeKey: defects[1].present, selectConst: defects[2].present}
+	avoid := avoidSet{topGoto: defects[0].present, rangeKey: defects[1].present, selectConst: defects[2].present,
+		rangeAssign: defects[3].present || defects[1].present, selectOk: defects[4].present, goArgs: defects[5].present}
 
 	// ---- generate
 	var progs []*program
@@ -404,8 +419,8 @@ func main() {
 		if i%150 == 149 {
 			it = newInterp() // bound the growth of the interpreter's global scope
 		}
-		wd.Beat(p)
 		name := fmt.Sprintf("p%d", p.Idx)
+		wd.Beat(progInput(name, p)) // what a hang is reported with: replayable
 		w, ok := want[p.Idx]
 		if !ok {
 			fmt.Fprintf(os.Stderr, "no oracle output for program %d\n", p.Idx)
